@@ -83,10 +83,10 @@ _STORE_COMPONENTS = {
 
 CHECKS["C01"] = {
     "machine": "store",
-    "runs": {"quick": 40_000, "thorough": 1_500_000},
+    "runs": {"quick": 60_000, "thorough": 1_500_000},
     "chunk": {"quick": 500, "thorough": 2_000},
     "budget_s": {"quick": 80, "thorough": 900},
-    "run_timeout": 120,
+    "run_timeout": {"quick": 15, "thorough": 120},
     "manifest": {
         "text": "Partial. Decided for every text a faulty storage stack can hand the parser: valid files (foreign tool and the library's own writer) "
                 "damaged by torn / lost / duplicated / misdirected writes, bit rot, interleaved writers, garbage inserts, plus a fault-free "
@@ -114,10 +114,10 @@ CHECKS["C01"] = {
 
 CHECKS["C03"] = {
     "machine": "store",
-    "runs": {"quick": 40_000, "thorough": 1_500_000},
+    "runs": {"quick": 60_000, "thorough": 1_500_000},
     "chunk": {"quick": 500, "thorough": 2_000},
     "budget_s": {"quick": 80, "thorough": 900},
-    "run_timeout": 120,
+    "run_timeout": {"quick": 15, "thorough": 120},
     "manifest": {
         "text": "Partial. Same storage-fault and size-swarm runs as C01, judged by a conservation oracle over (text handed to parse_string, blocks): "
                 "raws found left-to-right (greedy first occurrence is exact for this oracle), gaps whitespace-only, no overlap, nothing after the last raw; "
@@ -140,7 +140,7 @@ CHECKS["C03"] = {
 
 CHECKS["C04"] = {
     "machine": "store",
-    "runs": {"quick": 40_000, "thorough": 1_500_000},
+    "runs": {"quick": 150_000, "thorough": 1_500_000},
     "chunk": {"quick": 500, "thorough": 2_000},
     "budget_s": {"quick": 80, "thorough": 900},
     "run_timeout": 60,
@@ -157,7 +157,7 @@ CHECKS["C04"] = {
         "rule": "each run = three docgen documents D1, M, D2 (+ one for interleaving), 0-2 faults applied to M's bytes or one of 8 raw garbage texts; "
                 "distinct = distinct event-log shape incl. text digest; every run is non-trivial (it parses D1+X+D2).",
         "state_measure": "distinct (fault kinds, garbage id, abort-reason classes of the middle, middle-nonempty) tuples",
-        "expected_probes": ["abort:unexpected-block-start", "abort:expected-equals", "abort:expected-comma-after-key",
+        "expected_probes": ["abort:unexpected-block-start", "abort:expected-equals", "abort:expected-comma-after-key", "abort:eof", "no_suffix_document",
                             "concatenation_of_valid_documents", "d2_starts_with_entry", "d2_starts_with_String", "d2_starts_with_Preamble",
                             "d2_starts_with_ExplicitComment", "x_ends_in_backslash"],
         "components": _STORE_COMPONENTS,
@@ -167,7 +167,7 @@ CHECKS["C04"] = {
 
 CHECKS["C05"] = {
     "machine": "store",
-    "runs": {"quick": 30_000, "thorough": 1_000_000},
+    "runs": {"quick": 120_000, "thorough": 1_000_000},
     "chunk": {"quick": 500, "thorough": 2_000},
     "budget_s": {"quick": 80, "thorough": 900},
     "run_timeout": 60,
@@ -221,7 +221,7 @@ CHECKS["C07"] = {
 
 CHECKS["C20"] = {
     "machine": "io",
-    "runs": {"quick": 40_000, "thorough": 1_500_000},
+    "runs": {"quick": 100_000, "thorough": 1_500_000},
     "chunk": {"quick": 500, "thorough": 2_000},
     "budget_s": {"quick": 80, "thorough": 900},
     "run_timeout": 60,
@@ -257,7 +257,7 @@ CHECKS["C20"] = {
 
 CHECKS["C18"] = {
     "machine": "dep",
-    "runs": {"quick": 30_000, "thorough": 1_000_000},
+    "runs": {"quick": 60_000, "thorough": 1_000_000},
     "chunk": {"quick": 400, "thorough": 2_000},
     "budget_s": {"quick": 80, "thorough": 900},
     "run_timeout": 60,
